@@ -215,7 +215,7 @@ class Mixed:
                'same-cport' (the same client ip:port towards different servers)."""
 
     def __init__(self, rng, tls_combos, n_quic=0, pattern="random", noise=True, v6=None, quic_features=None,
-                 tls_app=None, resched=0.3, repack=0.12, shape_hook=None):
+                 tls_app=None, resched=0.3, repack=0.12, shape_hook=None, partial=0.0):
         import gen_quic
         self.rng = rng
         self.tls, self.quic = [], []
@@ -246,7 +246,7 @@ class Mixed:
             for d, data in flights:
                 conn.send(d, data, rng, cut)
             if rng.random() < resched:
-                conn.reschedule(rng, repack=repack)
+                conn.reschedule(rng, repack=repack, partial=partial)
                 conn.want_reschedule = True
             self.tls.append({"script": sc, "conn": conn, "truth": truth, "keylog": sc.keylog_lines()})
             per.append([f for _, f, *_ in conn.pkts])
